@@ -19,6 +19,7 @@ class SanCtx:
         self.spec = outer.spec
         self.classes = collections.Counter()
         self.notes = []
+        self.hooks = getattr(outer, 'hooks', 'lines')
         self.pid = 'SAN'
 
     def run(self, lines, exe='release'):
